@@ -56,8 +56,11 @@ def ask(drv, req, max_rounds=200):
     raise RuntimeError('regex oracle did not converge')
 
 
-def model_validate0(drv, case):
-    return ask(drv, base_request(case, 'validate0'))
+def model_validate0(drv, case, ref=False):
+    req = base_request(case, 'validate0')
+    if ref:
+        req['ref'] = True     # run the reference interpreter with the documented tables
+    return ask(drv, req)
 
 
 def model_normalize(drv, case):
